@@ -150,7 +150,7 @@ Definition ex_plans : list plan :=
 Definition ex_base : tcase :=
   {| t_content := [1; 2; 3; 4; 5; 6; 7; 8; 9; 10; 11; 12; 13; 14; 15; 16; 17]%N; t_chunks := [3; 1; 5]%nat;
      t_netascii := false; t_options := [(lit "blksize", lit "8")];
-     t_limits := {| max_bs := 65464; max_tmo := 30; default_tmo := 2 |}; t_retries := 1; t_wrap := Some 0%N;
+     t_limits := {| max_bs := 65464; max_tmo := 30720; default_tmo := 2048 |}; t_retries := 1; t_wrap := Some 0%N;
      t_kind := KNoFileno; t_events := [];
      t_proc := 0; t_v := current; t_nv := ncurrent; t_na_always_skip := false |}.
 Definition ex_coop : tcase :=
@@ -221,7 +221,7 @@ Qed.
    acknowledged, and the transfer does not end after max_retries + 1 sends *)
 Definition d1_silent : tcase :=
   {| t_content := [1; 2; 3]%N; t_chunks := []; t_netascii := false; t_options := [(lit "blksize", lit "8")];
-     t_limits := {| max_bs := 65464; max_tmo := 30; default_tmo := 2 |}; t_retries := 1; t_wrap := Some 0%N;
+     t_limits := {| max_bs := 65464; max_tmo := 30720; default_tmo := 2048 |}; t_retries := 1; t_wrap := Some 0%N;
      t_kind := KNoFileno; t_events := [];
      t_proc := 0; t_v := {| retry_fallthrough := true; errcode_raises := false; late_recv := false |}; t_nv := ncurrent; t_na_always_skip := false |}.
 Theorem C02_refuted_D1_declarative :
